@@ -110,6 +110,7 @@ def expected_probes(st):
         if st["diagnostics.unbalancedTransactions"]:
             codes.add("UNBALANCED")
     exp["codes"] = codes
+    exp["hoverAnswers"] = bool(st["features.hover"])
     # the probe's included file has 3.1 kB; diagnostics must be on for the report to be seen
     # (the including document itself has about 31 bytes: below that the load stops at the document)
     exp["bigTooLarge"] = (40 <= st["limits.maxFileSizeBytes"] < 3000) if (st["features.diagnostics"] and st["limits.maxFileSizeBytes"] >= 40) else None
@@ -155,6 +156,12 @@ def evaluate(c, res):
                 break
             if gp.get("indent") != ep["indent"]:
                 divs.append(("probe:indent", "step %d payload %s: formatting indents by %r, indentSize in effect should be %r" % (k, pj[:200], gp.get("indent"), ep["indent"])))
+                break
+            if "hoverAnswers" in gp and not tiny_limit and gp["hoverAnswers"] != ep["hoverAnswers"] and st["via"] != "init":
+                # (at initialisation the switch decides what is advertised; a client does not ask for what is not advertised)
+                trig = "feature-switched-at-runtime"
+                divs.append(("probe:feature-switch:hover", "step %d payload %s: features.hover in effect is %r, a hover request %s" % (
+                    k, pj[:200], ep["hoverAnswers"], "is answered" if gp["hoverAnswers"] else "gets no answer")))
                 break
             if ep["bigTooLarge"] is not None and "bigTooLarge" in gp and gp["bigTooLarge"] != ep["bigTooLarge"]:
                 divs.append(("probe:include-size-limit", "step %d payload %s: a document that includes a file of 3.1 kB (already in the loader's cache) %s 'too large', limits.maxFileSizeBytes in effect is %r" % (
